@@ -741,7 +741,7 @@ func runForeign(c *core.Ctx) {
 		return
 	}
 	rng := c.Rng
-	n := c.N(1200, 30000)
+	n := c.N(1200, 10000)
 	for i := 0; i < n; i++ {
 		var fc foreignCase
 		switch i % 7 {
